@@ -3,10 +3,12 @@
 package c12
 
 import (
+	"fmt"
 	"testing"
 	"time"
 
 	"github.com/form3tech-oss/f1/v2/internal/trigger/api"
+	"github.com/form3tech-oss/f1/v2/internal/trigger/ramp"
 	"github.com/form3tech-oss/f1/v2/internal/verifh/kit"
 )
 
@@ -184,6 +186,41 @@ func emitInterleaved(o *kit.Out, r *kit.Rand) {
 	o.Count("kind", "interleaved instances")
 }
 
+// rampCycles: the distribution as the ramp trigger composes it, the ramp ending INSIDE a cycle
+// (a ramp duration that is no whole number of rate units): every cycle that began within the ramp
+// hands out, over its sub-ticks, exactly the value the undistributed ramp has at the cycle's start.
+func rampCycles(o *kit.Out, r *kit.Rand) {
+	a, b := r.Range(5, 60), r.Range(61, 200)
+	dur := time.Duration(r.Range(2, 6))*time.Second + time.Duration(kit.Pick(r, 300, 500, 700))*time.Millisecond
+	dist := kit.Pick(r, "regular", "random")
+	spec := func(v int64) string { return kit.I(v) + "/1s" }
+	dr, e1 := ramp.CalculateRampRate(spec(a), spec(b), dist, dur, 0)
+	pr, e2 := ramp.CalculateRampRate(spec(a), spec(b), "none", dur, 0)
+	if e1 != nil || e2 != nil || dr.IterationDuration != 100*time.Millisecond {
+		o.Fail("c12-ramp-build", "ramp with distribution "+dist+" could not be built")
+		return
+	}
+	start := time.Unix(1_700_000_000, 0)
+	cycles := int(dur/time.Second) + 2
+	var want, got []int64
+	for c := 0; c < cycles; c++ {
+		at := start.Add(time.Duration(c) * time.Second)
+		want = append(want, int64(pr.Rate(at)))
+		var sum int64
+		for k := 0; k < 10; k++ {
+			sum += int64(dr.Rate(at.Add(time.Duration(k) * 100 * time.Millisecond)))
+		}
+		got = append(got, sum)
+	}
+	o.Count("kind", "ramp ending inside a cycle, "+dist)
+	for c := range want {
+		if want[c] != got[c] {
+			o.Fail("dist-total-or-shape", fmt.Sprintf("ramp %s -> %s over %s with distribution %s: cycle sums %v, the undistributed ramp at the cycle starts %v", spec(a), spec(b), dur, dist, got, want))
+			break
+		}
+	}
+}
+
 func (c dcase) args() []string {
 	return []string{kit.I(c.kind), kit.I(c.interval), kit.Ints(c.rates), kit.Ints(c.rands), kit.I(c.calls)}
 }
@@ -325,6 +362,9 @@ func TestC12(t *testing.T) {
 
 	for i := 0; i < kit.N(3, 40); i++ {
 		emitInterleaved(o, r)
+	}
+	for i := 0; i < kit.N(6, 60); i++ {
+		rampCycles(o, r)
 	}
 	n := kit.N(1500, 20000)
 	for i := 0; i < n; i++ {
